@@ -14,10 +14,10 @@ from .common import (Vals, z_leap, z_yd, z_D, z_M, z_md, z_N, I, N_MIN, N_1900, 
                      selfcheck_specs, py_N)
 
 MANIFEST_ENTRY = {
-    "category": "proof",
-    "text": "date.py and the date conversions/arithmetic of the value classes and natives are proved against the closed-form Gregorian day number for every date 0001..9999 and every integer offset (loop invariants, z3); time of day through IEEE doubles is covered by a bounded enumeration on the real code",
-    "note": "IEEE doubles idealised (rnd model); datetime.replace trusted; VC generator trusted (canaries on every run)",
-    "technique": "deductive verification: pyvc VCs from the real AST + z3/cvc5; bounded enumeration for float time-of-day",
+    'category': 'proof',
+    'text': 'date.py and the date conversions/arithmetic of the value classes and natives are proved against the closed-form Gregorian day number for every date 0001..9999 and every integer offset (loop invariants, z3); time of day through IEEE doubles is covered by a bounded enumeration on the real code; date - date with times of day is the whole number of days nearest to the exact difference, exactly the difference of the day numbers for equal times of day (over the error bound proved for to_oa_date)',
+    'note': 'IEEE doubles idealised (rnd model); datetime.replace trusted; VC generator trusted (canaries on every run)',
+    'technique': 'deductive verification: pyvc VCs from the real AST + z3/cvc5; bounded enumeration for float time-of-day',
 }
 PROPERTY = "C17"
 LEVEL = "proof"
